@@ -7,13 +7,17 @@ THEOREM_NOTE = ("Props/C16.lean: render(t in any object state, w) = render(t wit
 ASSUMPTIONS = ASSUME_PY + ["widgets.py / containers.py write no module-level state (AST scan in this check, reported in the evidence)",
                            "ColumnWidget (deprecated) is modelled only as used by CheckboxWidget; CenterWidget with a child wider than the width (negative draw column) is outside the model and not compared"]
 RULE = ("seeded random widget trees (depth <= 3: text, separator, center, checkbox, window, row/column list containers with 0..11 items, 0..4 columns, "
-        "forced/unforced width, numbering patterns and offsets) with sequences of 1..5 render(w)/add operations at varying widths on the kept object; "
+        "forced/unforced width, numbering patterns and offsets) with sequences of 1..5 render(w) / add / add-to-a-nested-container operations at varying and repeated widths on the kept object; "
         "the oracle renders a freshly built equal tree for every render; non-trivial = >= 2 renders on one object with a container inside")
 
 
 def generate(rnd, tier):
     N = 2500 if tier == "quick" else 30000
-    return [with_cc({"op": "tree", "tree": gen_tree(rnd, rnd.choice([1, 2, 2, 3])), "ops": gen_ops(rnd, 2, 5)}) for _ in range(N)]
+    cases = []
+    for _ in range(N):
+        t = gen_tree(rnd, rnd.choice([1, 2, 2, 3, 3]), lists_only=rnd.random() < 0.5)
+        cases.append(with_cc({"op": "tree", "tree": t, "ops": gen_ops(rnd, 2, 5, tree=t)}))
+    return cases
 
 
 def corpus():
@@ -53,8 +57,19 @@ def monitor(case, obs):
     spec = case["tree"]; k = 0
     import copy
     cur = copy.deepcopy(spec)
-    for op, a in case["ops"]:
-        if op == "add":
+    def node_at(t, path):
+        for i in path:
+            kids = t[2] if t[0] == "window" else t[6] if t[0] == "list" else [t[1]] if t[0] == "center" else []
+            if i >= len(kids): return None
+            t = kids[i]
+        return t
+    for o in case["ops"]:
+        op, a = o[0], o[1]
+        if op == "add_at":
+            t = node_at(cur, a)
+            if t is not None and t[0] == "window": t[2].append(o[2])
+            elif t is not None and t[0] == "list": t[6].append(o[2])
+        elif op == "add":
             if cur[0] == "window": cur[2].append(a)
             elif cur[0] == "list": cur[6].append(a)
         else:
